@@ -224,7 +224,23 @@ func typeKey(t types.Type) string {
 func fieldKey(st types.Type, i int) (string, Sort) {
 	s := st.Underlying().(*types.Struct)
 	f := s.Field(i)
-	return "F_" + typeKey(st) + "_" + f.Name(), ArrSort(SInt, sortOf(f.Type()))
+	return "F_" + typeKey(st) + "_" + f.Name() + refMark(f.Type()), ArrSort(SInt, sortOf(f.Type()))
+}
+
+// refMark distinguishes heap entries holding references (pointers, maps, chans,
+// funcs) from those holding plain integers: both have sort Int.
+func refMark(t types.Type) string {
+	if isRefType(t) {
+		return "_Ref"
+	}
+	return ""
+}
+
+func sortName(t types.Type) string {
+	if isRefType(t) {
+		return "Ref"
+	}
+	return sanitize(string(sortOf(t)))
 }
 
 func subName(st types.Type, i int) string {
@@ -234,17 +250,17 @@ func subName(st types.Type, i int) string {
 
 func elemKey(elem types.Type) (string, Sort) {
 	es := sortOf(elem)
-	return "Elem_" + sanitize(string(es)), ArrSort(SInt, ArrSort(SInt, es))
+	return "Elem_" + sortName(elem), ArrSort(SInt, ArrSort(SInt, es))
 }
 
 func boxKey(elem types.Type) (string, Sort) {
 	es := sortOf(elem)
-	return "Box_" + sanitize(string(es)), ArrSort(SInt, es)
+	return "Box_" + sortName(elem), ArrSort(SInt, es)
 }
 
 func mapKeys(mt *types.Map) (dom, val string, domS, valS Sort) {
 	ks, vs := sortOf(mt.Key()), sortOf(mt.Elem())
-	sfx := sanitize(string(ks)) + "_" + sanitize(string(vs))
+	sfx := sanitize(string(ks)) + "_" + sortName(mt.Elem())
 	return "MapDom_" + sfx, "MapVal_" + sfx, ArrSort(SInt, ArrSort(ks, SBool)), ArrSort(SInt, ArrSort(ks, vs))
 }
 
